@@ -386,6 +386,12 @@ func (w *kworld) checkCall(rec *callRec, infos []reqInfo, reqs []gmsl.VerifyJSON
 	const P = "C12"
 	// expected key requests
 	want := map[pair]spec.Timestamp{}
+	// Several requests of one batch may need the same (server, key ID) at
+	// different instants; the key ring asks its sources for the pair once.
+	// Which of those instants it passes along (the library: the latest) is its
+	// own business - the property speaks of pairs, not of that hint - so any
+	// of them is accepted.
+	wantAny := map[pair]map[spec.Timestamp]bool{}
 	for _, in := range infos {
 		if in.msg.garbage {
 			continue
@@ -398,7 +404,22 @@ func (w *kworld) checkCall(rec *callRec, infos []reqInfo, reqs []gmsl.VerifyJSON
 			if cur, ok := want[p]; !ok || cur <= in.ts {
 				want[p] = in.ts
 			}
+			if wantAny[p] == nil {
+				wantAny[p] = map[spec.Timestamp]bool{}
+			}
+			wantAny[p][in.ts] = true
 		}
+	}
+	samePairs := func(got map[pair]spec.Timestamp) bool {
+		if len(got) != len(want) {
+			return false
+		}
+		for p, ts := range got {
+			if !wantAny[p][ts] {
+				return false
+			}
+		}
+		return true
 	}
 	// (1) shape
 	if err != nil {
@@ -486,7 +507,7 @@ func (w *kworld) checkCall(rec *callRec, infos []reqInfo, reqs []gmsl.VerifyJSON
 	if rec.db == nil {
 		r.Violate(P, "flow", "db_not_consulted", "the key database was not consulted")
 	}
-	r.Check(sameReq(rec.db.req, want), P, "flow", "db_request_set", "database asked for %s, expected %s", reqStr(rec.db.req), reqStr(want))
+	r.Check(samePairs(rec.db.req), P, "flow", "db_request_set", "database asked for %s, expected %s", reqStr(rec.db.req), reqStr(want))
 	r.Check(len(rec.fetch) <= nfetch, P, "flow", "fetcher_consulted_twice", "%d fetcher calls for %d fetchers", len(rec.fetch), nfetch)
 	covered := map[pair]bool{}
 	for p, e := range rec.db.res {
@@ -503,7 +524,7 @@ func (w *kworld) checkCall(rec *callRec, infos []reqInfo, reqs []gmsl.VerifyJSON
 		for _, p := range sortedPairs(f.req) {
 			ts, asked := want[p]
 			r.Check(asked, P, "flow", "fetch_unrequested_pair", "fetcher %s asked for %s which no request needs", f.name, pairStr(p))
-			r.Check(ts == f.req[p], P, "flow", "fetch_timestamp", "fetcher %s asked for %s at %d, want %d", f.name, pairStr(p), f.req[p], ts)
+			r.Check(!asked || wantAny[p][f.req[p]], P, "flow", "fetch_timestamp", "fetcher %s asked for %s at %d, an instant none of the requests names (the latest is %d)", f.name, pairStr(p), f.req[p], ts)
 			if covered[p] {
 				// allowed only if start/end straddle the validity instant
 				_, byFetcher := lastFetched[p]
@@ -688,6 +709,7 @@ func (w *kworld) checkFetcher(f *recFetcher, rec *callRec, sc *srcCall) {
 		w.client.mu.Unlock()
 		allGood := true
 		want := map[pair]entry{}
+		cands := map[pair][]entry{}
 		for _, h := range hs {
 			if h.kind == "error" || h.kind == "none" {
 				allGood = allGood && h.kind == "none"
@@ -699,16 +721,34 @@ func (w *kworld) checkFetcher(f *recFetcher, rec *callRec, sc *srcCall) {
 			}
 			for p, e := range entriesOf(h.keys) {
 				want[p] = e
+				cands[p] = append(cands[p], e)
 			}
 		}
 		if sc.err == nil {
-			// soundness: nothing from an inadmissible response
+			// soundness: nothing from an inadmissible response. When two
+			// admissible responses of one answer carry the same pair (a fresh
+			// and an older response of the same server), which of them the
+			// fetcher keeps is its own business.
+			inSome := func(p pair, e entry) bool {
+				for _, c := range cands[p] {
+					if sameEntry(c, e) {
+						return true
+					}
+				}
+				return false
+			}
 			for _, p := range sortedPairs(sc.res) {
-				e, ok := want[p]
-				r.Check(ok && sameEntry(e, sc.res[p]), "C12", "key_response", "perspective_inadmissible", "perspective fetcher returned %s=%s which no admissible notary response contains (responses: %s)", pairStr(p), entStr(sc.res[p]), kinds(hs))
+				r.Check(inSome(p, sc.res[p]), "C12", "key_response", "perspective_inadmissible", "perspective fetcher returned %s=%s which no admissible notary response contains (responses: %s)", pairStr(p), entStr(sc.res[p]), kinds(hs))
 			}
 			if allGood {
-				w.compareEntries("C12", "key_response_complete", f.name, sc.res, want)
+				for _, p := range sortedPairs(want) {
+					_, ok := sc.res[p]
+					r.Check(ok, "C12", "key_response_complete", "missing", "%s: result lacks %s although every notary response was admissible", f.name, pairStr(p))
+				}
+				for _, p := range sortedPairs(sc.res) {
+					_, ok := want[p]
+					r.Check(ok, "C12", "key_response_complete", "extra", "%s: result has %s=%s which no notary response produced", f.name, pairStr(p), entStr(sc.res[p]))
+				}
 			}
 		} else {
 			r.Check(!allGood || len(hs) == 0 || hs[0].kind == "error", "C12", "key_response_complete", "perspective_refused_good", "perspective fetcher failed (%v) although every notary response was admissible: %s", sc.err, kinds(hs))
